@@ -25,6 +25,8 @@ def c08 : Drv where
     | ["trigger", h, c, ob, pre] => ((), toString (shouldBroadcastFor (nat! h) (nat! c) (ob == "1") (pre == "1")))
     | ["deadline", c] => ((), toString (claimDeadline (nat! c)))
     | ["mpptimeout", h, c] => ((), toString (mppOnchainTimeout (nat! h) (nat! c)))
+    | ["e2e_close", oc] => ((), toString (Timing.outboundTrigger (nat! oc)))
+    | ["e2e_failback", ic] => ((), toString (nat! ic - LATENCY_GRACE_PERIOD_BLOCKS))
     | ["threshold", h] => ((), toString (confirmationThreshold (nat! h) none))
     | _ => ((), "bad-op")
 
